@@ -255,6 +255,8 @@ pub struct Sim {
     pub batches: usize,
     pub batch_max: usize,
     /// the request answered last (kept so that the application can misbehave and answer it again)
+    /// the application has changed the payload limit at least once in this history
+    pub limit_changed: bool,
     pub last_answered: Option<Outstanding>,
     /// results of surplus responses (not API errors: the application asked for them)
     pub surplus_results: Vec<String>,
@@ -366,6 +368,7 @@ impl Sim {
             untagged_yields: Vec::new(),
             batches: 0,
             batch_max: 0,
+            limit_changed: false,
             last_answered: None,
             surplus_results: Vec::new(),
             shutdown_seen: 0,
@@ -833,7 +836,21 @@ impl Sim {
     pub fn set_limit(&mut self, l: usize) {
         self.step += 1;
         self.limit = l;
+        self.limit_changed = true;
         self.server.set_payload_max_size(l);
+    }
+
+    /// Hands the (already started, possibly busy) server a kill switch now, if it has none yet.
+    pub fn attach_kill_switch(&mut self) -> Result<(), String> {
+        if self.kill.is_some() {
+            return Ok(());
+        }
+        let k = EventFd::new(libc::EFD_NONBLOCK).map_err(|e| e.to_string())?;
+        let k2 = k.try_clone().map_err(|e| e.to_string())?;
+        self.kill_fd = k.as_raw_fd();
+        self.server.add_kill_switch(k).map_err(|e| format!("add_kill_switch: {:?}", e))?;
+        self.kill = Some(k2);
+        Ok(())
     }
 
     pub fn signal_kill(&mut self) {
